@@ -38,7 +38,7 @@ def run_one(args):
             res["status"] = "PANIC"
         return res
     perm = lib.perm_of(impl, inst)
-    blk = [l for l in impl if l.split()[0] in ("MCFTYPE", "SLOT", "EDGE", "FTOUR", "ENDMCF")]
+    blk = [l for l in impl if l.split()[0] in ("MCFTYPE", "SLOT", "EDGE", "DSTEP", "FTOUR", "ENDMCF")]
     mpath = os.path.join(d, "c%d.min" % k)
     with open(mpath, "w") as f:
         f.write(" ".join(str(x) for x in instgen.encode(inst, perm)) + "\n" + "\n".join(blk) + "\n")
@@ -77,6 +77,11 @@ def run_one(args):
         a = [x for x in me if x not in ie][:3]
         b = [x for x in ie if x not in me][:3]
         res["netdiff"] = "model-only %s impl-only %s" % (a, b)
+    res["decode"] = {}
+    for l in out:
+        p = l.split()
+        if p[0] == "DECODE":
+            res["decode"][p[1]] = dict(x.split("=") for x in p[2:])
     for l in out:
         p = l.split()
         if p[0] == "FLOW":
@@ -143,6 +148,11 @@ def failures(pid, inst, r):
         return [("checker-crash", r["dstatus"][:300])]
     if r["netdiff"]:
         bad.append(("flow-network-differs-from-model", r["netdiff"]))
+    for ty, kv in (r.get("decode") or {}).items():
+        if kv["order_ok"] != "true":
+            bad.append(("decode-order-not-the-flow", "type %s: the recorded order of entering flow units is not the flow" % ty))
+        elif kv["model"] != "equal":
+            bad.append(("decode-differs-from-model", "type %s: Decode.v replayed with the recorded order gives %s" % (ty, kv["model"])))
     if r.get("slotdiff"):
         bad.append(("slot-distribution-differs-from-model", r["slotdiff"]))
     if r.get("slot_over"):
@@ -203,4 +213,8 @@ def main(tier, seed):
                              "network; feasibility, decomposition, potentials certificate (checked by the extracted "
                              "check_optimal); (vehicles, operating cost) vs an independent networkx optimum",
                              failures_fn=failures, features_fn=features,
-                             extra_cov={"independent_optima_compared": sum(1 for r in results if r.get("indep") and not r.get("coupled"))})
+                             extra_cov={"independent_optima_compared": sum(1 for r in results if r.get("indep") and not r.get("coupled")),
+                                        "decodings_replayed_on_Decode_v": sum(len(r.get("decode") or {}) for r in results),
+                                        "decoded_flow_units": sum(int(kv.get("steps", 0)) for r in results for kv in (r.get("decode") or {}).values()),
+                                        "slot_distributions_compared": sum(1 for r in results if r.get("status") == "OK"),
+                                        "types_with_allotted_slots": sum(1 for r in results for l in r.get("impl", []) if l.startswith("SLOT "))})
